@@ -191,10 +191,21 @@ pub struct Log {
     f: std::io::BufWriter<std::fs::File>,
     pub n: u64,
     pub by_op: std::collections::BTreeMap<String, u64>,
+    pending: Option<std::fs::File>,
 }
 impl Log {
     pub fn new(path: &str) -> Self {
-        Log { f: std::io::BufWriter::new(std::fs::File::create(path).expect("trace file")), n: 0, by_op: Default::default() }
+        let pending = std::fs::File::create(format!("{}.pending", path)).ok();
+        Log { f: std::io::BufWriter::new(std::fs::File::create(path).expect("trace file")), n: 0, by_op: Default::default(), pending }
+    }
+    /// what is about to be called: survives an abort / stack overflow of the driver process
+    pub fn about_to(&mut self, what: &str, input: &[u8]) {
+        if let Some(f) = self.pending.as_mut() {
+            use std::io::Seek;
+            let _ = f.seek(std::io::SeekFrom::Start(0));
+            let _ = f.set_len(0);
+            let _ = f.write_all(json!({"call": what, "input": show(input), "input_bytes": bytes(input)}).to_string().as_bytes());
+        }
     }
     pub fn ev(&mut self, v: Value) {
         *self.by_op.entry(v["op"].as_str().unwrap_or("?").to_string()).or_insert(0) += 1;
@@ -204,6 +215,7 @@ impl Log {
 }
 
 pub fn ev_li_parse(log: &mut Log, input: &[u8]) {
+    log.about_to("LanguageIdentifier::from_bytes", input);
     let r = guard(|| LanguageIdentifier::from_bytes(input));
     let (out, st, ser) = match &r {
         Ok(Ok(v)) => (json!({"k":"ok"}), proj_li(v), b(&v.to_string())),
@@ -214,6 +226,7 @@ pub fn ev_li_parse(log: &mut Log, input: &[u8]) {
 }
 
 pub fn ev_loc_parse(log: &mut Log, input: &[u8]) -> Option<Locale> {
+    log.about_to("Locale::from_bytes", input);
     let r = guard(|| Locale::from_bytes(input));
     let out = out_of(&r);
     let (st, ser) = match &r {
@@ -225,6 +238,7 @@ pub fn ev_loc_parse(log: &mut Log, input: &[u8]) -> Option<Locale> {
 }
 
 pub fn ev_ext_parse(log: &mut Log, input: &[u8]) {
+    log.about_to("ExtensionsMap::from_bytes", input);
     let r = guard(|| ExtensionsMap::from_bytes(input));
     let out = out_of(&r);
     let (st, ser) = match &r {
@@ -235,6 +249,7 @@ pub fn ev_ext_parse(log: &mut Log, input: &[u8]) {
 }
 
 fn ev_sub(log: &mut Log, kind: &str, input: &[u8]) {
+    log.about_to(kind, input);
     macro_rules! one {
         ($ty:ty, $raw:expr) => {{
             let r = guard(|| <$ty>::from_bytes(input));
@@ -317,7 +332,7 @@ fn gen_op(r: &mut Rng, likely: bool) -> Value {
     const BADREGIONS: &[&str] = &["U", "USA", "41", "4190", "u1"];
     const VARIANTS: &[&str] = &["valencia", "1996", "macos", "1abc", "abcde"];
     const BADVARIANTS: &[&str] = &["abcd", "abc", "abcdefghi", "1.ab", "x"];
-    const TLANGS: &[&str] = &["en", "en-US", "de-Latn-AT-1996", "und", "sr-Cyrl", "zh-hant-tw"];
+    const TLANGS: &[&str] = &["en", "en-US", "de-Latn-AT-1996", "und", "sr-Cyrl", "zh-hant-tw", "abcdefgh-Latn-US", "abcde", "fil-419-1abc"];
     const BADTLANGS: &[&str] = &["x", "en-", "", "en-u-ca", "e"];
     let vals = |r: &mut Rng, good: &[&str], bad: &[&str]| -> Vec<Value> {
         (0..r.below(3)).map(|_| { let pool = if r.chance(1, 6) { bad } else { good }; bytes(&arg_sub(r, good, pool)) }).collect()
@@ -439,6 +454,7 @@ fn drive_hist(r: &mut Rng, n: usize, log: &mut Log, likely: bool) {
         let len = 5 + r.below(56);
         for step in 0..len {
             let op = gen_op(r, likely);
+            log.about_to(&format!("op {} on {}", op, loc), b"");
             let res = guard(|| ops::apply(&mut loc, &op));
             let out = match res { Ok(x) => x, Err(at) => json!({"k":"panic","at": short_at(&at)}) };
             log.ev(json!({"op":"op","o": op,"out": out,"st": proj_loc(&loc),"ser": b(&loc.to_string()),"empties": empties(&loc.extensions)}));
@@ -489,6 +505,7 @@ fn drive_meta(r: &mut Rng, n: usize, log: &mut Log) {
             _ => "case+sep",
         };
         let bb = noisy_join(r, &b_toks);
+        log.about_to("Locale::from_bytes (pair)", &[a.clone(), b"  |  ".to_vec(), bb.clone()].concat());
         let got = guard(|| (Locale::from_bytes(&a), Locale::from_bytes(&bb)));
         let same = match &got {
             Ok((Ok(x), Ok(y))) => x == y && x.to_string() == y.to_string(),
@@ -585,5 +602,8 @@ pub fn main(args: &[String]) {
             std::process::exit(2);
         }
     }
+    use std::io::Write as _;
+    let _ = log.f.flush();
+    let _ = std::fs::remove_file(format!("{}.pending", out));
     println!("{}", json!({"driver": driver, "seed": seed, "events": log.n, "by_op": log.by_op}));
 }
